@@ -622,3 +622,78 @@ func headerSplitOrder(p *Prog, r *Report, R string, inPkg func(rel string) bool)
 	}
 	r.Count("wire.header_splits", n)
 }
+
+// dropDoesNotDisconnect: in a per-pipe receiver loop, discarding a message because IT is
+// unacceptable (too short, too many hops, unknown id) goes on with the next message: the
+// Free is inside the receive loop.  Only the arms of a select (pipe closing, queue resize)
+// may leave the loop.  Otherwise one bad or merely over-limit message tears down the
+// connection and everything queued on it.
+func dropDoesNotDisconnect(p *Prog, r *Report, R string, inPkg func(rel string) bool) {
+	n := 0
+	for _, fn := range p.Funcs {
+		rel, _ := p.FuncRel(fn)
+		if !inPkg(rel) || fn.Name() != "receiver" {
+			continue
+		}
+		var rcv ssa.Instruction
+		EachInstr(fn, func(in ssa.Instruction) {
+			if c := CallOf(in); c != nil && c.IsInvoke() && c.Method.Name() == "RecvMsg" {
+				rcv = in
+			}
+		})
+		if rcv == nil {
+			continue
+		}
+		// the outermost loop containing the receive
+		// (a loop = all back edges to one header: every `continue` is its own back edge)
+		var body map[*ssa.BasicBlock]bool
+		byHead := map[*ssa.BasicBlock]map[*ssa.BasicBlock]bool{}
+		for _, t := range fn.Blocks {
+			for _, h := range t.Succs {
+				if !h.Dominates(t) {
+					continue
+				}
+				b := byHead[h]
+				if b == nil {
+					b = map[*ssa.BasicBlock]bool{h: true}
+					byHead[h] = b
+				}
+				stack := []*ssa.BasicBlock{t}
+				for len(stack) > 0 {
+					x := stack[len(stack)-1]
+					stack = stack[:len(stack)-1]
+					if b[x] {
+						continue
+					}
+					b[x] = true
+					stack = append(stack, x.Preds...)
+				}
+			}
+		}
+		for _, b := range byHead {
+			if b[rcv.Block()] && len(b) > len(body) {
+				body = b
+			}
+		}
+		if body == nil {
+			continue
+		}
+		for _, e := range p.Events(fn) {
+			if e.Kind != "call" || e.What != "mangos.(*Message).Free" {
+				continue
+			}
+			sel := false
+			for _, g := range e.Guard {
+				if strings.HasPrefix(g, "select#") {
+					sel = true
+				}
+			}
+			if sel {
+				continue
+			}
+			n++
+			r.Check(body[e.In.Block()], R, p.FuncName(fn)+"/drop@"+strings.Join(e.Guard, "&&"), p.InstrPos(e.In), "the discard stays inside the receive loop", "a message is discarded on a condition about the message itself ("+strings.Join(e.Guard, " && ")+") and the receive loop is left: the pipe is closed and the peer disconnected because of one unacceptable message")
+		}
+	}
+	r.Count("wire.receiver_drops", n)
+}
